@@ -724,4 +724,223 @@ theorem resolveParser_ok {cval : Cell → Ty} {s : State} {defs : List (Name × 
       exact r4 q (List.mem_filter.mp hq).1
     · exact r4
 
+/-! ### parsing: the threaded state never matters once the invariant holds -/
+
+theorem mapS_spec {α : Type} (I : State → Prop) (f : State → α → State × Outcome) (g : α → Outcome) :
+    ∀ (xs : List α) (s : State), (∀ x ∈ xs, ∀ s, I s → (f s x).2 = g x ∧ I (f s x).1) → I s →
+    (mapS f s xs).2 = mapP g xs ∧ I (mapS f s xs).1 := by
+  intro xs
+  induction xs with
+  | nil => intro s _ hI; exact ⟨rfl, hI⟩
+  | cons x xs ih =>
+    intro s hf hI
+    obtain ⟨h1, h2⟩ := hf x (by simp) s hI
+    rcases hfx : f s x with ⟨s1, o⟩
+    rw [hfx] at h1 h2
+    simp only at h1 h2
+    obtain ⟨i1, i2⟩ := ih s1 (fun y hy => hf y (by simp [hy])) h2
+    cases o with
+    | ok v =>
+      rcases hm : mapS f s1 xs with ⟨s2, r⟩
+      rw [hm] at i1 i2
+      simp only at i1 i2
+      cases r <;> simp [mapS, hfx, hm, mapP, ← h1, ← i1, i2]
+    | perr => simp [mapS, hfx, mapP, ← h1, h2]
+    | nameErr => simp [mapS, hfx, mapP, ← h1, h2]
+    | fuel => simp [mapS, hfx, mapP, ← h1, h2]
+
+theorem firstOk_spec {α : Type} (I : State → Prop) (f : State → α → State × Outcome) (g : α → Outcome) :
+    ∀ (xs : List α) (s : State), (∀ x ∈ xs, ∀ s, I s → (f s x).2 = g x ∧ I (f s x).1) → I s →
+    (firstOk f s xs).2 = firstP g xs ∧ I (firstOk f s xs).1 := by
+  intro xs
+  induction xs with
+  | nil => intro s _ hI; exact ⟨rfl, hI⟩
+  | cons x xs ih =>
+    intro s hf hI
+    obtain ⟨h1, h2⟩ := hf x (by simp) s hI
+    rcases hfx : f s x with ⟨s1, o⟩
+    rw [hfx] at h1 h2
+    simp only at h1 h2
+    have i := ih s1 (fun y hy => hf y (by simp [hy])) h2
+    cases o with
+    | ok v => simp [firstOk, hfx, firstP, ← h1, h2]
+    | fuel => simp [firstOk, hfx, firstP, ← h1, h2]
+    | perr => simpa [firstOk, hfx, firstP, ← h1] using i
+    | nameErr => simpa [firstOk, hfx, firstP, ← h1] using i
+
+theorem fieldsS_spec (I : State → Prop) (f : State → Ty → Val → State × Outcome) (g : Ty → Val → Outcome)
+    (kvs : List (Nat × Val)) :
+    ∀ (fields : List (Nat × Ty)) (s : State),
+    (∀ p ∈ fields, ∀ x s, I s → (f s p.2 x).2 = g p.2 x ∧ I (f s p.2 x).1) → I s →
+    (fieldsS f kvs s fields).2 = fieldsP g kvs fields ∧ I (fieldsS f kvs s fields).1 := by
+  intro fields
+  induction fields with
+  | nil => intro s _ hI; exact ⟨rfl, hI⟩
+  | cons p fields ih =>
+    intro s hf hI
+    rcases p with ⟨n, t⟩
+    cases hl : lookupV n kvs with
+    | none =>
+      simp only [fieldsS, fieldsP, hl]
+      exact ih s (fun q hq => hf q (by simp [hq])) hI
+    | some x =>
+      obtain ⟨h1, h2⟩ := hf (n, t) (by simp) x s hI
+      rcases hfx : f s t x with ⟨s1, o⟩
+      rw [hfx] at h1 h2
+      simp only at h1 h2
+      obtain ⟨i1, i2⟩ := ih s1 (fun q hq => hf q (by simp [hq])) h2
+      cases o with
+      | ok v =>
+        rcases hm : fieldsS f kvs s1 fields with ⟨s2, r⟩
+        rw [hm] at i1 i2
+        simp only at i1 i2
+        cases r <;> simp [fieldsS, fieldsP, hl, hfx, hm, ← h1, ← i1, i2]
+      | perr => simp [fieldsS, fieldsP, hl, hfx, ← h1, h2]
+      | nameErr => simp [fieldsS, fieldsP, hl, hfx, ← h1, h2]
+      | fuel => simp [fieldsS, fieldsP, hl, hfx, ← h1, h2]
+
+theorem TysIn_mem {S : List Name} : ∀ {ts : List Ty}, TysIn S ts → ∀ t ∈ ts, TyIn S t
+  | [], _, t, ht => by simp at ht
+  | a :: as, h, t, ht => by
+    simp only [TysIn] at h
+    rcases List.mem_cons.mp ht with ht | ht
+    · subst ht; exact h.1
+    · exact TysIn_mem h.2 t ht
+
+mutual
+theorem TyIn_direct {S : List Name} (a : Ann) (h : ∀ n ∈ names a, n ∈ S) : TyIn S (direct a) := by
+  cases a with
+  | name n => simp only [direct, TyIn]; exact h n (by simp [names])
+  | quoted c n => simp only [direct, TyIn]; exact h n (by simp [names])
+  | list a => simp only [direct, TyIn]; exact TyIn_direct a (by simpa [names] using h)
+  | dict a => simp only [direct, TyIn]; exact TyIn_direct a (by simpa [names] using h)
+  | tuple as => simp only [direct, TyIn]; exact TysIn_direct as (by simpa [names] using h)
+  | union as => simp only [direct, TyIn]; exact TysIn_direct as (by simpa [names] using h)
+  | _ => simp [direct, TyIn]
+theorem TysIn_direct {S : List Name} (as : List Ann) (h : ∀ n ∈ namesL as, n ∈ S) : TysIn S (directL as) := by
+  cases as with
+  | nil => simp [directL, TysIn]
+  | cons a as =>
+    simp only [directL, TysIn]
+    exact ⟨TyIn_direct a (fun n hn => h n (by simp [namesL, hn])),
+           TysIn_direct as (fun n hn => h n (by simp [namesL, hn]))⟩
+end
+
+theorem mem_zip_left {α β : Type} {a : α} {b : β} : ∀ {l₁ : List α} {l₂ : List β}, (a, b) ∈ l₁.zip l₂ → a ∈ l₁
+  | [], _, h => by simp at h
+  | _ :: _, [], h => by simp at h
+  | x :: xs, y :: ys, h => by
+    simp only [List.zip_cons_cons, List.mem_cons, Prod.mk.injEq] at h
+    rcases h with ⟨h, _⟩ | h
+    · simp [h]
+    · exact List.mem_cons_of_mem _ (mem_zip_left h)
+
+theorem parse_spec {cval : Cell → Ty} (leaf : Val → Option Val) {defs : List (Name × Decl)} {S : List Name}
+    (hS : Closed defs S) :
+    ∀ (fuel : Nat) (s : State) (ty : Ty) (v : Val), Inv cval s defs → TyIn S ty →
+    (parseTy Cfg.fixed leaf fuel s ty v).2 = specParse leaf (envOf defs) fuel ty v ∧
+    Inv cval (parseTy Cfg.fixed leaf fuel s ty v).1 defs := by
+  intro fuel
+  induction fuel with
+  | zero => intro s ty v h _; first | exact ⟨rfl, h⟩ | exact ⟨trivial, h⟩
+  | succ fuel ih =>
+    intro s ty v h hty
+    cases ty with
+    | int => simp only [parseTy, specParse]; first | exact ⟨rfl, h⟩ | exact ⟨trivial, h⟩
+    | none => simp only [parseTy, specParse]; first | exact ⟨rfl, h⟩ | exact ⟨trivial, h⟩
+    | fref c => simp only [TyIn] at hty
+    | list a =>
+      simp only [TyIn] at hty
+      cases v with
+      | list xs =>
+        simp only [parseTy, specParse]
+        obtain ⟨m1, m2⟩ := mapS_spec (fun s => Inv cval s defs) (fun s x => parseTy Cfg.fixed leaf fuel s a x)
+          (fun x => specParse leaf (envOf defs) fuel a x) xs s (fun x _ s hs => ih s a x hs hty) h
+        rcases hm : mapS (fun s x => parseTy Cfg.fixed leaf fuel s a x) s xs with ⟨s1, r⟩
+        rw [hm] at m1 m2
+        simp only at m1 m2
+        cases r with
+        | inl e => simp only [← m1]; first | exact ⟨rfl, m2⟩ | exact ⟨trivial, m2⟩
+        | inr vs => simp only [← m1]; first | exact ⟨rfl, m2⟩ | exact ⟨trivial, m2⟩
+      | _ => simp only [parseTy, specParse]; first | exact ⟨rfl, h⟩ | exact ⟨trivial, h⟩
+    | dict a =>
+      simp only [TyIn] at hty
+      cases v with
+      | dict kvs =>
+        simp only [parseTy, specParse]
+        obtain ⟨m1, m2⟩ := mapS_spec (fun s => Inv cval s defs) (fun s (kv : Nat × Val) => parseTy Cfg.fixed leaf fuel s a kv.2)
+          (fun (kv : Nat × Val) => specParse leaf (envOf defs) fuel a kv.2) kvs s (fun x _ s hs => ih s a x.2 hs hty) h
+        rcases hm : mapS (fun s (kv : Nat × Val) => parseTy Cfg.fixed leaf fuel s a kv.2) s kvs with ⟨s1, r⟩
+        rw [hm] at m1 m2
+        simp only at m1 m2
+        cases r with
+        | inl e => simp only [← m1]; first | exact ⟨rfl, m2⟩ | exact ⟨trivial, m2⟩
+        | inr vs => simp only [← m1]; first | exact ⟨rfl, m2⟩ | exact ⟨trivial, m2⟩
+      | _ => simp only [parseTy, specParse]; first | exact ⟨rfl, h⟩ | exact ⟨trivial, h⟩
+    | tuple ts =>
+      simp only [TyIn] at hty
+      cases v with
+      | list xs =>
+        simp only [parseTy, specParse]
+        by_cases hlen : (xs.length != ts.length) = true
+        · simp only [hlen, if_true]; first | exact ⟨rfl, h⟩ | exact ⟨trivial, h⟩
+        · simp only [hlen]
+          obtain ⟨m1, m2⟩ := mapS_spec (fun s => Inv cval s defs)
+            (fun s (tx : Ty × Val) => parseTy Cfg.fixed leaf fuel s tx.1 tx.2)
+            (fun (tx : Ty × Val) => specParse leaf (envOf defs) fuel tx.1 tx.2) (ts.zip xs) s
+            (fun tx htx s hs => ih s tx.1 tx.2 hs (TysIn_mem hty tx.1 (mem_zip_left (b := tx.2) htx))) h
+          rcases hm : mapS (fun s (tx : Ty × Val) => parseTy Cfg.fixed leaf fuel s tx.1 tx.2) s (ts.zip xs) with ⟨s1, r⟩
+          rw [hm] at m1 m2
+          simp only at m1 m2
+          cases r with
+          | inl e => simp only [← m1]; first | exact ⟨rfl, m2⟩ | exact ⟨trivial, m2⟩
+          | inr vs => simp only [← m1]; first | exact ⟨rfl, m2⟩ | exact ⟨trivial, m2⟩
+      | _ => simp only [parseTy, specParse]; first | exact ⟨rfl, h⟩ | exact ⟨trivial, h⟩
+    | union ts =>
+      simp only [TyIn] at hty
+      have hfo := fun v => firstOk_spec (fun s => Inv cval s defs) (fun s t => parseTy Cfg.fixed leaf fuel s t v)
+          (fun t => specParse leaf (envOf defs) fuel t v) ts s (fun t ht s hs => ih s t v hs (TysIn_mem hty t ht)) h
+      simp only [parseTy, specParse]
+      cases v with
+      | none =>
+        cases hn : ts.any isNoneTy with
+        | true => first | exact ⟨rfl, h⟩ | exact ⟨trivial, h⟩
+        | false => exact hfo .none
+      | int i => exact hfo (.int i)
+      | str x => exact hfo (.str x)
+      | list xs => exact hfo (.list xs)
+      | tup xs => exact hfo (.tup xs)
+      | dict kvs => exact hfo (.dict kvs)
+      | inst k fs => exact hfo (.inst k fs)
+    | data k =>
+      simp only [TyIn] at hty
+      obtain ⟨d, hk, hall, hvis⟩ := hS k hty
+      cases v with
+      | dict kvs =>
+        obtain ⟨s1, ps1, hr, hinv1, hl1, hf1⟩ := resolveParser_ok h hk hvis
+        have henv : envOf defs k = some (d.fields.map (fun fa => (fa.1, fa.2.direct))) := by simp [envOf, hk]
+        simp only [parseTy, specParse, hr, hl1, henv, hf1]
+        obtain ⟨m1, m2⟩ := fieldsS_spec (fun s => Inv cval s defs) (fun s t x => parseTy Cfg.fixed leaf fuel s t x)
+          (fun t x => specParse leaf (envOf defs) fuel t x) kvs (d.fields.map (fun fa => (fa.1, fa.2.direct))) s1
+          (by
+            intro p hp x s hs
+            simp only [List.mem_map] at hp
+            obtain ⟨fa, hfa, rfl⟩ := hp
+            apply ih s _ x hs
+            have hsub : ∀ n ∈ fa.2.allNames, n ∈ S := fun n hn =>
+              hall n (by simp only [Decl.allNames, List.mem_flatMap]; exact ⟨fa, hfa, hn⟩)
+            rcases fa with ⟨f, fa⟩
+            cases fa with
+            | plain a => exact TyIn_direct a hsub
+            | str c e => exact TyIn_direct e hsub) hinv1
+        rcases hm : fieldsS (fun s t x => parseTy Cfg.fixed leaf fuel s t x) kvs s1
+            (d.fields.map (fun fa => (fa.1, fa.2.direct))) with ⟨s2, r⟩
+        rw [hm] at m1 m2
+        simp only at m1 m2
+        try rw [hm]
+        cases r with
+        | inl e => simp only [← m1]; first | exact ⟨rfl, m2⟩ | exact ⟨trivial, m2⟩
+        | inr vs => simp only [← m1]; first | exact ⟨rfl, m2⟩ | exact ⟨trivial, m2⟩
+      | _ => simp only [parseTy, specParse]; first | exact ⟨rfl, h⟩ | exact ⟨trivial, h⟩
+
 end Utv.C17
